@@ -158,6 +158,7 @@ type Exec struct {
 
 	uf map[string][]ufApp
 
+	TermProf  map[string]int
 	lastClock *Term
 	SymClock  bool
 }
@@ -180,7 +181,7 @@ func NewExec(prog *ssa.Program, cfg Config) *Exec {
 	x := &Exec{Prog: prog, tb: NewTB(), cfg: cfg, infos: map[*ssa.Function]*FnInfo{},
 		inputByName: map[string]*Input{}, globals: map[*ssa.Global]int{}, errGlobal: map[*ssa.Global]bool{},
 		FnsExecuted: map[string]int{}, StubsHit: map[string]int{}, Redirects: map[string]*ssa.Function{},
-		uf: map[string][]ufApp{}}
+		uf: map[string][]ufApp{}, TermProf: map[string]int{}}
 	x.nextOb = 1
 	x.sites = map[ssa.Instruction]int{}
 	return x
@@ -623,6 +624,9 @@ func (x *Exec) mergeable(a, b *State) bool {
 // merge folds b into a (guards are disjoint).
 func (x *Exec) merge(a, b *State) *State {
 	x.NMerges++
+	if fmt.Sprint(a.Tags) != fmt.Sprint(b.Tags) {
+		x.fail("internal: merging states with different tags %v %v", a.Tags, b.Tags)
+	}
 	if os.Getenv("GOSMT_DEBUGMERGE") != "" && (len(a.Tags) > 0 || len(b.Tags) > 0) {
 		fmt.Printf("MERGE tags %v %v at %s\n", a.Tags, b.Tags, x.posOf(a))
 	}
@@ -673,7 +677,7 @@ func (x *Exec) merge(a, b *State) *State {
 			continue
 		}
 		if va != vb {
-			out.Heap[k] = x.ite(c, va, vb)
+			out.Heap[k] = x.iteObj(c, va, vb, k)
 		}
 	}
 	out.Threads = make([]*Thread, len(a.Threads))
@@ -742,6 +746,21 @@ func (x *Exec) merge(a, b *State) *State {
 		}
 	}
 	return out
+}
+
+// iteObj merges two versions of a heap object; a kind mismatch means that two different
+// allocations hashed to the same id (they cannot both be live in one concrete run): the engine
+// aborts with a diagnostic rather than guess.
+func (x *Exec) iteObj(c *Term, a, b Value, id int) (r Value) {
+	defer func() {
+		if e := recover(); e != nil {
+			if _, ok := e.(*EngineError); ok {
+				panic(e)
+			}
+			x.fail("merge of heap object %d failed: %v (a=%s b=%s)", id, e, x.showVal(a), x.showVal(b))
+		}
+	}()
+	return x.ite(c, a, b)
 }
 
 // ---------- obligations ----------
